@@ -103,56 +103,92 @@ class Registry:
 
     # ------------------------------------------------------------------ typed dicts -> records
     def _load_typed_dicts(self):
-        """Read every TypedDict class of the repository mechanically into a record type."""
-        pending = dict(self.prog.typed_dicts)
-        self._td_nodes = pending
+        """TypedDict classes of the repository are read mechanically into record types (on demand)."""
         self._td_building = set()
+        self._struct: dict = {}
+        self._rec_by_node: dict = {}
 
-    def record(self, name: str) -> TRec | None:
-        if name in self.records:
-            return self.records[name]
-        node = self._td_nodes.get(name)
-        if node is None:
+    def _td_lookup(self, name: str, module: str | None):
+        """Resolve a TypedDict name in the context of a module: own definition, imported one, or unique."""
+        if "." in name:                       # DSL form "gherkin_line.Cell"
+            modsuffix, bare = name.rsplit(".", 1)
+            for m, node in self.prog.typed_dict_defs.get(bare, []):
+                if m.endswith(modsuffix):
+                    return m, node
             return None
-        if name in self._td_building:
+        defs = self.prog.typed_dict_defs.get(name, [])
+        if not defs:
+            return None
+        if module is not None:
+            for m, node in defs:
+                if m == module:
+                    return m, node
+            src = self.prog.imports.get(module, {}).get(name)
+            if src is not None:
+                for m, node in defs:
+                    if m == src or m.endswith(src.lstrip(".")):
+                        return m, node
+        return defs[0]
+
+    def record(self, name: str, module: str | None = None) -> TRec | None:
+        if name in self.records and "." not in name and len(self.prog.typed_dict_defs.get(name, [])) <= 1:
+            return self.records[name]
+        if name == "Envelope":
+            return self.envelope_type()
+        if name == "Rule":
+            return self.rule_record()
+        found = self._td_lookup(name, module)
+        if found is None:
+            return self.records.get(name)
+        mod, node = found
+        if id(node) in self._rec_by_node:
+            return self._rec_by_node[id(node)]
+        bare = name.rsplit(".", 1)[-1]
+        if id(node) in self._td_building:
             raise EngineUnsupported(f"recursive TypedDict {name}")
-        self._td_building.add(name)
+        self._td_building.add(id(node))
         fields = []
         if isinstance(node, ast.ClassDef):
             for b in node.bases:
                 bn = ast.unparse(b)
                 if bn != "TypedDict":
-                    base = self.record(bn)
+                    base = self.record(bn, mod)
                     if base is not None:
                         fields.extend(base.fields)
             for s in node.body:
                 if isinstance(s, ast.AnnAssign) and isinstance(s.target, ast.Name):
-                    ty, opt = self._td_field_type(s.annotation)
+                    ty, opt = self._td_field_type(s.annotation, mod)
                     fields = [f for f in fields if f[0] != s.target.id] + [(s.target.id, ty, opt)]
         else:  # functional form TypedDict("N", {...})
             d = node.value.args[1]
             for k, v in zip(d.keys, d.values):
-                ty, opt = self._td_field_type(v)
+                ty, opt = self._td_field_type(v, mod)
                 fields.append((k.value, ty, opt))
-        self._td_building.discard(name)
-        override = getattr(self, "_record_overrides", {}).get(name)
-        if override:
-            fields = override(fields)
-        r = TRec(name, fields)
-        self.records[name] = r
+        self._td_building.discard(id(node))
+        skey = tuple((k, t, o) for k, t, o in fields)
+        if skey in self._struct and fields:
+            r = self._struct[skey]                 # structurally identical records are one type
+        else:
+            ambiguous = len(self.prog.typed_dict_defs.get(bare, [])) > 1
+            rname = (mod.rsplit(".", 1)[-1] + "_" + bare) if ambiguous else bare
+            r = TRec(rname, fields)
+            if fields:
+                self._struct[skey] = r
+            self.records.setdefault(rname, r)
+        self._rec_by_node[id(node)] = r
         return r
 
-    def _td_field_type(self, ann):
+    def _td_field_type(self, ann, module=None):
         opt = False
         if isinstance(ann, ast.Subscript) and ast.unparse(ann.value) == "NotRequired":
             opt = True
             ann = ann.slice
-        ty = self.type_from_annotation(ann)
+        ty = self.type_from_annotation(ann, module)
         if ty is None:
             raise EngineUnsupported(f"TypedDict field type {ast.unparse(ann)}")
         return ty, opt
 
-    def type_from_annotation(self, ann) -> Ty | None:
+    def type_from_annotation(self, ann, module=None) -> Ty | None:
         """Mechanical reading of a type annotation; None when it says nothing usable."""
         if ann is None:
             return None
@@ -169,29 +205,27 @@ class Registry:
                 return T_INT
             if n == "bool":
                 return T_BOOL
-            if n in self._td_nodes or n in self.records:
-                if n == "Envelope":
-                    return self.envelope_type()
-                return self.record(n)
+            if n in self.prog.typed_dict_defs or n in self.records:
+                return self.record(n, module)
             if n in self.klasses:
                 return self.class_record(n)
             return None
         if isinstance(ann, ast.Subscript):
             base = ast.unparse(ann.value)
             if base in ("list", "Sequence", "Iterable", "List"):
-                el = self.type_from_annotation(ann.slice)
+                el = self.type_from_annotation(ann.slice, module)
                 return TSeq(el) if el is not None else None
             if base == "tuple" and isinstance(ann.slice, ast.Tuple):
-                items = [self.type_from_annotation(x) for x in ann.slice.elts]
+                items = [self.type_from_annotation(x, module) for x in ann.slice.elts]
                 return TTuple(items) if all(i is not None for i in items) else None
             return None
         if isinstance(ann, ast.BinOp) and isinstance(ann.op, ast.BitOr):
             l, r = ann.left, ann.right
             if isinstance(r, ast.Constant) and r.value is None:
-                t = self.type_from_annotation(l)
+                t = self.type_from_annotation(l, module)
                 return TOpt(t) if t is not None else None
             if isinstance(l, ast.Constant) and l.value is None:
-                t = self.type_from_annotation(r)
+                t = self.type_from_annotation(r, module)
                 return TOpt(t) if t is not None else None
         return None
 
@@ -202,7 +236,7 @@ class Registry:
             return self.records["Envelope"]
         fields = []
         for sub in ("BackgroundEnvelope", "ScenarioEnvelope", "RuleEnvelope"):
-            node = self._td_nodes.get(sub)
+            node = self.prog.typed_dicts.get(sub)
             if node is None:
                 continue
             for s in node.body:
@@ -211,7 +245,7 @@ class Registry:
                         # a rule's own children never contain rules (grammar); avoids a recursive sort
                         fields.append(("rule", self.rule_record(), True))
                     else:
-                        fields.append((s.target.id, self.type_from_annotation(s.annotation), True))
+                        fields.append((s.target.id, self.type_from_annotation(s.annotation, "gherkin.parser_types"), True))
         r = TRec("Envelope", fields)
         self.records["Envelope"] = r
         return r
@@ -219,14 +253,14 @@ class Registry:
     def rule_record(self) -> TRec:
         if "Rule" in self.records:
             return self.records["Rule"]
-        node = self._td_nodes["Rule"]
+        node = self.prog.typed_dicts["Rule"]
         fields = []
         for s in node.body:
             if isinstance(s, ast.AnnAssign):
                 if s.target.id == "children":
                     fields.append(("children", TSeq(self.rule_child_record()), False))
                 else:
-                    ty, opt = self._td_field_type(s.annotation)
+                    ty, opt = self._td_field_type(s.annotation, "gherkin.parser_types")
                     fields.append((s.target.id, ty, opt))
         r = TRec("Rule", fields)
         self.records["Rule"] = r
@@ -237,10 +271,10 @@ class Registry:
             return self.records["RuleChild"]
         fields = []
         for sub in ("BackgroundEnvelope", "ScenarioEnvelope"):
-            node = self._td_nodes[sub]
+            node = self.prog.typed_dicts[sub]
             for s in node.body:
                 if isinstance(s, ast.AnnAssign):
-                    fields.append((s.target.id, self.type_from_annotation(s.annotation), True))
+                    fields.append((s.target.id, self.type_from_annotation(s.annotation, "gherkin.parser_types"), True))
         r = TRec("RuleChild", fields)
         self.records["RuleChild"] = r
         return r
@@ -248,11 +282,14 @@ class Registry:
     def record_for_keys(self, keys: set) -> TRec | None:
         """Find the unique record type whose required keys are included and whose keys include `keys`."""
         cands = []
-        for name in list(self._td_nodes) + list(self.records):
-            try:
-                r = self.envelope_type() if name == "Envelope" else (self.rule_record() if name == "Rule" else self.record(name))
-            except EngineUnsupported:
-                continue
+        allrecs = []
+        for name, defs in self.prog.typed_dict_defs.items():
+            for m, node in defs:
+                try:
+                    allrecs.append(self.record(name, m))
+                except (EngineUnsupported, KeyError):
+                    continue
+        for r in allrecs + list(self.records.values()):
             if r is None or not r.fields:
                 continue
             allk = {k for k, _, _ in r.fields}
@@ -1422,6 +1459,19 @@ class SpecExecutor(Executor):
                 ts.append(r[0][1].t)
             return [(st, VBool(z3.And(*ts)))]
         return super().ev_Compare(st, e)
+
+    def index(self, st, base, idx, node=None):
+        # spec expressions are total: indexes are taken as in range (a concrete negative index counts from the end)
+        if isinstance(base, (VStr, VSeq)) or (isinstance(base, VRef) and isinstance(st.cell(base), ListCell)
+                                              and st.cell(base).elem is not None):
+            el, t = self.as_seq(st, base)
+            i = z3.simplify(self.as_int(idx))
+            if z3.is_int_value(i) and i.as_long() < 0:
+                i = z3.Length(t) + i
+            if isinstance(base, VStr):
+                return [(st, VStr(z3.Unit(t[i])))]
+            return [(st, from_term(t[i], el))]
+        return super().index(st, base, idx, node)
 
     def slice(self, st, base, lo, hi):
         r = super().slice(st, base, lo, hi)
